@@ -182,7 +182,7 @@ def PathDet.stripVersion (d : PathDet) (path : Bytes) : Bytes :=
   | Option.none => ['/']
   | some e => remaining.drop e
 
-/-- prefix and suffix of an Accept pattern (`acceptDetector.Detect`, "parse pattern on first use") -/
+/-- prefix and suffix of an Accept pattern (`newAcceptDetector`; before K13e it was done lazily inside `Detect`) -/
 def acceptParts (pattern : Bytes) : Bytes × Bytes :=
   match index pattern versionPlaceholder with
   | some idx => (pattern.take idx, pattern.drop (idx + 9))
